@@ -387,7 +387,7 @@ def _dispatch(j):
 
 
 def run(tier, seed):
-    n = 96 if tier == "quick" else 1200
+    n = 96 if tier == "quick" else 600
     jobs = [(job, (seed, i, tier)) for i in range(n)] + [(witness_job, None)]
     res = Result()
     for r in core.pmap(_dispatch, jobs):
